@@ -285,6 +285,11 @@ var mds = []mdT{
 	{Label: "colliding-with-empty-valued-annotation", Map: map[string]string{"e": "x"}}, // "e" = "" on the annotated artifact
 	{Label: "colliding-empty-value", Map: map[string]string{"a": ""}},
 	{Label: "disjoint-empty-value", Map: map[string]string{"k2": ""}},
+	// metadata is signed verbatim: values and keys with runes a sanitiser, trimmer, escaper or case folder would touch
+	// (control characters, no-break space, zero-width joiner, padding, JSON / HTML specials, line separator), more than one key
+	{Label: "values-with-control-and-format-runes", Map: map[string]string{"k": "l1\nl2\tnbsp\u00a0zwj\u200d\U0001F468\u200d\U0001F469|\x7f", "k3": "  padded  "}},
+	{Label: "values-with-json-specials-and-case-variant-key", Map: map[string]string{"k": "\"q\" \\ <&> \u2028 \u00e9", "A": "2"}}, // "A" is no annotation of the artifact ("a" is)
+	{Label: "key-with-odd-runes", Map: map[string]string{"k\n\u00a0 x\u200d": "v"}},
 }
 
 var refLabels = []string{"tag", "digest", "full-tag", "full-digest", "other-digest"}
@@ -297,7 +302,63 @@ type alphabetT struct {
 	Name string
 	NMD  int
 	NFmt int
-	Ops  []opT // non-nil: the alphabet is this explicit list (signer spelled out per operation, independent of the position)
+	Ops  []opT  // non-nil: the alphabet is this explicit list (signer spelled out per operation, independent of the position)
+	Env  string // non-empty: the histories run while the process environment has this profile (see envProfiles)
+}
+
+// Process environment profiles (the statement holds in every environment): variables that build systems,
+// reproducible-build tooling, locale handling and notation's own directory lookup consult. The core alphabet is run
+// under each profile; profiles are applied one after the other (the environment is process-wide).
+var envProfileNames = []string{"reproducible-build-past", "reproducible-build-future", "notation-and-home-variables"}
+
+func envProfile(name string) ([][2]string, error) {
+	sc := hx.Scratch()
+	switch name {
+	case "reproducible-build-past":
+		return [][2]string{{"SOURCE_DATE_EPOCH", "946684800"}, {"ZERO_AR_DATE", "1"}, {"TZ", "Pacific/Kiritimati"}, {"LC_ALL", "tr_TR.UTF-8"}, {"LANG", "tr_TR.UTF-8"}}, nil
+	case "reproducible-build-future":
+		return [][2]string{{"SOURCE_DATE_EPOCH", "4102444800"}, {"FAKETIME", "@2100-01-01 00:00:00"}, {"TZ", "UTC+12"}}, nil
+	case "notation-and-home-variables":
+		return [][2]string{{"NOTATION_EXPERIMENTAL", "1"}, {"NOTATION_CONFIG", filepath.Join(sc, "c11-env", "config")}, {"NOTATION_LIBEXEC", filepath.Join(sc, "c11-env", "libexec")},
+			{"XDG_CONFIG_HOME", filepath.Join(sc, "c11-env", "xdg-config")}, {"XDG_CACHE_HOME", filepath.Join(sc, "c11-env", "xdg-cache")}, {"HOME", filepath.Join(sc, "c11-env", "no-such-home")}}, nil
+	}
+	return nil, fmt.Errorf("unknown environment profile %q", name)
+}
+
+// setEnv applies a profile and returns the function that restores the previous environment.
+func setEnv(name string) (func(), error) {
+	if name == "" {
+		return func() {}, nil
+	}
+	vars, err := envProfile(name)
+	if err != nil {
+		return nil, err
+	}
+	type old struct {
+		k, v string
+		had  bool
+	}
+	var olds []old
+	for _, kv := range vars {
+		v, had := os.LookupEnv(kv[0])
+		olds = append(olds, old{kv[0], v, had})
+		if err := os.Setenv(kv[0], kv[1]); err != nil {
+			return nil, err
+		}
+	}
+	return func() {
+		for _, o := range olds {
+			if o.had {
+				_ = os.Setenv(o.k, o.v)
+			} else {
+				_ = os.Unsetenv(o.k)
+			}
+		}
+	}, nil
+}
+
+func envAlphabet(profile string) alphabetT {
+	return alphabetT{Name: "core in environment " + profile, NMD: 4, NFmt: 2, Env: profile}
 }
 
 var (
@@ -1501,8 +1562,9 @@ func envMetaCore(mediaType string, env []byte) (time.Time, [][]byte, error) {
 // histories
 
 type histCase struct {
-	Repository string `json:"repository"` // mock | disk | memory
-	Artifact   string `json:"artifact"`   // plain | annotated
+	Repository string `json:"repository"`            // mock | disk | memory
+	Artifact   string `json:"artifact"`              // plain | annotated
+	Env        string `json:"environment,omitempty"` // environment profile ("" = as inherited)
 	Ops        []opT  `json:"operations"`
 }
 
@@ -1701,6 +1763,12 @@ var (
 )
 
 func exploreLevel(r *hx.Run, alpha alphabetT, kind, artName string, depth int) {
+	restore, err := setEnv(alpha.Env)
+	if err != nil {
+		r.Infra("environment %q: %v", alpha.Env, err)
+		return
+	}
+	defer restore()
 	col := &collector{}
 	n := pow(alpha.size(), depth)
 	var skipped atomic.Int64
@@ -1709,7 +1777,7 @@ func exploreLevel(r *hx.Run, alpha alphabetT, kind, artName string, depth int) {
 			skipped.Add(1)
 			return
 		}
-		c := histCase{Repository: kind, Artifact: artName, Ops: alpha.decode(i, depth)}
+		c := histCase{Repository: kind, Artifact: artName, Env: alpha.Env, Ops: alpha.decode(i, depth)}
 		res := runHistory(c)
 		r.Eval(res.evals)
 		if res.infra != nil {
@@ -1719,6 +1787,9 @@ func exploreLevel(r *hx.Run, alpha alphabetT, kind, artName string, depth int) {
 		r.Transition(1)
 		sequences.Add(1)
 		for _, v := range res.vs {
+			if alpha.Env != "" {
+				v.what = "[environment profile " + alpha.Env + "] " + v.what
+			}
 			col.add(i, v, c)
 		}
 		statesMu.Lock()
@@ -1756,7 +1827,7 @@ func exploreLevel(r *hx.Run, alpha alphabetT, kind, artName string, depth int) {
 			r.Sample(map[string]any{"repository": kind, "artifact": artName, "history": c.Ops, "successful_calls": res.successes, "last_call": res.class, "state": res.state, "violations": len(res.vs)})
 		}
 	}, func(i int, v any, stack string) {
-		c := histCase{Repository: kind, Artifact: artName, Ops: alpha.decode(i, depth)}
+		c := histCase{Repository: kind, Artifact: artName, Env: alpha.Env, Ops: alpha.decode(i, depth)}
 		col.add(i, viol{"history/panic", fmt.Sprintf("[%s repository, %s artifact] panic: %v\n%s", kind, artName, v, stack)}, c)
 	})
 	col.flush(r)
@@ -1777,10 +1848,16 @@ func replay(r *hx.Run) {
 		r.Infra("replay: %v", err)
 		return
 	}
+	restore, err := setEnv(c.Env)
+	if err != nil {
+		r.Infra("replay: %v", err)
+		return
+	}
+	defer restore()
 	// every prefix is judged, so that the first deviating call is shown
 	any := false
 	for n := 1; n <= len(c.Ops); n++ {
-		pc := histCase{Repository: c.Repository, Artifact: c.Artifact, Ops: c.Ops[:n]}
+		pc := histCase{Repository: c.Repository, Artifact: c.Artifact, Env: c.Env, Ops: c.Ops[:n]}
 		res := runHistory(pc)
 		r.Eval(res.evals)
 		if res.infra != nil {
@@ -1834,6 +1911,14 @@ func main() {
 		from  int
 	}
 	// (within one depth the small families run first: a run cut by the deadline has completed them)
+	var envPlans []plan
+	for _, name := range envProfileNames {
+		d := map[string]int{"mock": 1, "disk": 1, "memory": 1}
+		if r.Thorough() {
+			d = map[string]int{"mock": 2, "disk": 2, "memory": 1}
+		}
+		envPlans = append(envPlans, plan{envAlphabet(name), d, 1})
+	}
 	plans := []plan{
 		{dupAlphabet, map[string]int{"mock": 3, "disk": 3, "memory": 3}, 1},
 		{annAlphabet, map[string]int{"mock": 2, "disk": 2, "memory": 2}, 1},
@@ -1851,8 +1936,10 @@ func main() {
 	} else {
 		r.SetDeadline(40 * time.Second)
 	}
+	plans = append(envPlans, plans...)
 	kinds := []string{"mock", "disk", "memory"}
 	requested := map[string]int{}
+	r.Extra["environment_profiles"] = envProfileNames
 	for d := 1; d <= 3; d++ { // shorter histories of every family first (also what a capped run has completed)
 		for _, p := range plans {
 			for _, k := range kinds {
